@@ -206,10 +206,21 @@ func protect(runtimeName string, f func(r *Result)) Result {
 		}()
 		f(&r)
 	}()
+	timer := time.NewTimer(ExecTimeout)
+	defer timer.Stop()
 	select {
 	case r := <-done:
 		return r
-	case <-time.After(ExecTimeout):
+	case <-timer.C:
+	}
+	// grace period (a loaded machine can starve a goroutine): only an execution that is still not
+	// back after 3 x the timeout in total is reported as a hang
+	grace := time.NewTimer(2 * ExecTimeout)
+	defer grace.Stop()
+	select {
+	case r := <-done:
+		return r
+	case <-grace.C:
 		return Result{Runtime: runtimeName, Hang: true, Class: "hang"}
 	}
 }
@@ -230,7 +241,7 @@ func RunMachineDirect(script string, vars map[string]string, bal Balances, mode 
 			panic("injected panic (negative control)")
 		}
 		if inject == "hang" {
-			time.Sleep(ExecTimeout + 2*time.Second)
+			time.Sleep(3*ExecTimeout + 2*time.Second)
 		}
 		prog, err := compiler.Compile(script)
 		if err != nil {
